@@ -2,7 +2,12 @@
 C04 — every transform is a fixed linear, row-independent operator scaling with dr.
 
 proofs : lean/PyAbel/Props/C04.lean (x·M, M x, triangular solve are linear; dr scaling; NNLS positive homogeneity)
-K      : the matrix models vs the implementation's arrays (harness/methods.corr_operators); for every method the
+         lean/PyAbel/Props/C04Recursions.lean (the Hansen–Law recursion and the direct quadrature as coded are linear in the
+         row for every constant table / grid; Hansen–Law dr scaling both directions)
+K      : Model/Recursions.lean (hansenlaw_transform, direct_transform python backend) vs the implementation on random rows,
+         every direction/hold order/correction, dr values, sizes 3..301 (Hansen–Law constants regenerated from the source
+         into Gen/Tables.lean by gen_tables.py on every run);
+         the matrix models vs the implementation's arrays (harness/methods.corr_operators); for every method the
          implementation is compared with *its own extracted operator*: T(X) == X @ operator_of(T) — i.e. the
          implementation really is the fixed matrix form the theorems are about
 S      : linearity on random pairs (negative values), row independence (bit-for-bit), dr scaling, NNLS positive
@@ -171,6 +176,45 @@ def oracle_tools(ck, tier, deep):
                 break
 
 
+def corr_recursions(ck, tier):
+    """Lean models of the Hansen–Law recursion and of the direct quadrature vs the implementation, row by row"""
+    import abel
+    from harness.common import drive, h2arr, arr2h, f2h
+    rng = np.random.default_rng(seed() + 404)
+    sizes = [3, 4, 5, 9, 26, 60] if tier == "quick" else [3, 4, 5, 6, 9, 26, 60, 101, 201, 301]
+    lines, meta = [], []
+    for n in sizes:
+        for dr in (1.0, float(rng.uniform(0.05, 3.0))):
+            x = rng.normal(size=n) * rng.uniform(0.1, 10)
+            for fwd in (0, 1):
+                for opt in (0, 1):
+                    lines.append(f"hansen {fwd} {opt} {f2h(dr)} {arr2h(x)}")
+                    meta.append(("hansenlaw", n, dr, fwd, opt, x))
+                    if n >= 3:
+                        lines.append(f"direct {fwd} {opt} {f2h(dr)} {arr2h(x)}")
+                        meta.append(("direct", n, dr, fwd, opt, x))
+    try:
+        replies = drive(lines)
+    except Exception as e:
+        ck.disagree("K.recursions", dict(), f"driver: {type(e).__name__}: {e}")
+        return
+    for (meth, n, dr, fwd, opt, x), rep in zip(meta, replies):
+        ck.count(("K.rec", meth, n, fwd, opt), suite="K.recursions")
+        d = "forward" if fwd else "inverse"
+        if meth == "hansenlaw":
+            ref = quiet(abel.hansenlaw.hansenlaw_transform, x, dr=dr, direction=d, hold_order=opt)
+        else:
+            ref = quiet(abel.direct.direct_transform, x, dr=dr, direction=d, correction=bool(opt), backend="python")
+        t = rep.split()
+        got = h2arr(t[3:]) if t and t[0] == "ok" else None
+        tol = 1e-13 * (1 + (n / 50.0) ** 2)          # cancellation in B0 = γ1 − γ0 (n−1) grows with n in both implementations
+        if got is None or got.shape != np.shape(ref) or not np.abs(got - ref).max() <= tol * max(1.0, np.abs(ref).max()):
+            ck.disagree("K.recursions", dict(method=meth, n=n, dr=dr, direction=d, option=opt, row=x.tolist()),
+                        f"Lean model of {meth} differs from the implementation by "
+                        f"{'shape/bad-op' if got is None or got.shape != np.shape(ref) else np.abs(got - ref).max()}")
+    ck.sample(dict(suite="K.recursions", example=dict(method="hansenlaw", n=sizes[-1], directions=2, hold_orders=2)))
+
+
 def run(tier):
     ck = Check("C04", tier)
     deep = tier == "thorough"
@@ -182,17 +226,25 @@ def run(tier):
     ck.cov["trusted_base"] = ["Lean 4.33 kernel", "axioms propext/Classical.choice/Quot.sound",
                               "theorems are about the matrix / triangular-solve forms; that each implementation *is* such "
                               "a fixed form is checked numerically (K.fixed-operator) for the sizes explored",
-                              "hansenlaw, direct, onion_bordas recursions are not yet modelled in Lean: their linearity is "
-                              "covered by K.fixed-operator + S only",
+                              "hansenlaw and direct (python backend) are modelled as recursions/quadratures in Lean "
+                              "(Model/Recursions.lean, correspondence K.recursions to 1e-13); onion_bordas (scipy half-pixel shift + "
+                              "loop) is covered by K.fixed-operator + S only",
                               "scipy nnls / lstsq / ndimage.shift are external"]
-    ck.cov["unproved_clauses"] = ["linearity of the Hansen–Law / direct / Bordas recursions as coded (measured)",
+    ck.cov["unproved_clauses"] = ["linearity of the Bordas loop as coded (measured)", "direct: dr scaling (measured)",
                                   "linearity of image tools using scipy resampling (measured)"]
     ck.cov["source_fingerprint"] = source_fingerprint(["abel/hansenlaw.py", "abel/daun.py", "abel/dasch.py", "abel/basex.py",
                                                        "abel/direct.py", "abel/onion_bordas.py"])
+    import subprocess
+    from harness.common import VERIF
+    p = subprocess.run(["/venv/bin/python", str(VERIF / "harness" / "gen_tables.py")], capture_output=True, text=True)
+    if p.returncode != 0:
+        ck.broken.append(dict(kind="translator", module="gen_tables", why=(p.stderr or p.stdout)[-800:]))
     ck.proofs("PyAbel.Props.C04")
+    ck.proofs("PyAbel.Props.C04Recursions")
     ok, log = ensure_driver()
     if ok:
         corr_operators(ck, tier)
+        corr_recursions(ck, tier)
     else:
         ck.broken.append(dict(kind="proof", module="pyabel_drv", why="driver build failed", log=log[-1500:]))
     oracle_methods(ck, tier, deep or bool(ck.broken))
